@@ -91,6 +91,14 @@ func (t *WeightedMerkleTrie) Update(key, value []byte, weight uint64) error {
 
 func (t *WeightedMerkleTrie) insert(node Node, prefix, key []byte, value Node) (int64, Node, error) {
 	if len(key) == 0 {
+		if hn, ok := node.(*hashNode); ok {
+			// the existing value was collapsed to its hash: load it, the weight change is relative to it
+			rn, err := t.resolveHashNode(hn)
+			if err != nil {
+				return 0, nil, err
+			}
+			node = rn
+		}
 		if v, ok := node.(*valueNode); ok {
 			newVal := value.(*valueNode).value
 			if bytes.Equal(v.value, newVal) {
